@@ -8,7 +8,7 @@ Every random decision goes through the Choices object; 0 is always the simplest 
 
 SLOT_NAMES = ["a", "b", "dflt"]
 PROVIDE_KWARGS = ["pva", "pvb", "pvc"]
-ELEM_TAGS = ["div", "span", "p", "section"]
+ELEM_TAGS = ["div", "span", "article", "section"]
 # class-name pool; entries beyond the first few stress C04 (names outside [A-Za-z0-9_], prefixes of each other)
 CLASS_NAMES = ["Comp", "Comp_x", "CompComp", "Knopf", "Tlačítko", "Кнопка", "按钮", "Comp1"]
 
